@@ -218,7 +218,7 @@ func cmdProp(args []string) {
 	var names []string
 	for _, u := range units {
 		for _, ob := range u.em.obls {
-			seen[ob.Name] = true
+			seen[stableName(ob.Name)] = true
 			names = append(names, ob.Name)
 		}
 	}
@@ -227,7 +227,7 @@ func cmdProp(args []string) {
 		os.WriteFile(expPath, []byte(strings.Join(names, "\n")+"\n"), 0o644)
 	} else if data, err := os.ReadFile(expPath); err == nil {
 		for _, n := range strings.Split(strings.TrimSpace(string(data)), "\n") {
-			if n != "" && !seen[n] && !volatileName(n) {
+			if n != "" && !seen[stableName(n)] {
 				fail(n+"#vanished", map[string]any{"error": "obligation generated on the reference tree is no longer generated: " + n}, true)
 			}
 		}
@@ -336,7 +336,23 @@ func cmdProp(args []string) {
 }
 
 // volatileName: names that legitimately change (none so far).
-func volatileName(n string) bool { return false }
+var reOrdinal = regexp.MustCompile(`(@\d+|/return\d+)`)
+
+// stableName maps an obligation name to the part of it that harmless edits of the code do
+// not change: obligations that stem from contract clauses keep their clause label (ordinals of
+// repeated instances and return-site numbers are dropped); implicit safety obligations, whose
+// text is the source expression (local variable names), are identified by function and kind.
+func stableName(n string) string {
+	parts := strings.SplitN(n, "#", 3)
+	if len(parts) < 3 {
+		return n
+	}
+	switch parts[1] {
+	case "index", "nil", "slice", "divzero", "makeslice", "typeassert", "nilmap", "arith", "wrap", "panic", "copy-write", "errwrap":
+		return parts[0] + "#" + parts[1]
+	}
+	return reOrdinal.ReplaceAllString(n, "")
+}
 
 func seenPrefix(seen map[string]bool, n string) bool {
 	for k := range seen {
